@@ -12,7 +12,14 @@
       the honest content.
     - [pub]: a publisher under a clock script: timestamps of successive publishes strictly
       increase (starting above the creation time), the published byte strings are pairwise
-      distinct, every published message is yielded back unchanged by a subscription. *)
+      distinct, every published message is yielded back unchanged by a subscription.
+    - [seq]: a SEQUENCE of forge-style messages delivered in order to ONE subscription, either
+      drained after every message ([step]: one group of yields per message) or after the last
+      one ([bulk]: one flat list).  Oracle: every yielded item must be authentic — [step]: the
+      group of message i holds at most one item and it passes [check_forge] of message i;
+      [bulk]: the yielded list is a subsequence of the authentic messages of the sequence.
+      The model line is [Sym.sub_run]: exactly the authentic ones, in order, exact duplicates
+      of an authentic message again. *)
 From Coq Require Import List NArith Bool String.
 From PV Require Import Model.Timestamp Model.Ephemeral Oracle.C18 Lib.Show.
 Import ListNotations.
@@ -115,3 +122,90 @@ Definition model_line_pub (pk t0 : N) (script : list (N * N)) : string :=
     show_hts (msg_ts N Sym.sigT w) ++ ":" ++ show_N (body (wf w)) ++ ":" ++
     (match Sym.accept (Decoded w) with Some m => show_bool (wrapped_eqb m w) | None => "0" end) in
   with_panic (map one ms) ok ++ " uniq=" ++ show_bool (nodupb ms).
+
+(** ** [seq]: sequences on one subscription *)
+Local Open Scope N_scope.
+
+Definition seq_spec : Type := (N * fields N * fields N * bool)%type.   (* signer, f1, f2, sigmut *)
+
+Definition spec_incoming (s : seq_spec) : incoming N Sym.sigT :=
+  let '(signer, f1, f2, sigmut) := s in
+  Decoded {| wf := f2; wsig := if sigmut then Sym.Junk else Sym.sign signer (Sym.enc f1) |}.
+
+(** The acceptance predicate of [check_forge], without an observation. *)
+Definition spec_authentic (s : seq_spec) : bool :=
+  let '(signer, f1, f2, sigmut) := s in
+  negb sigmut && (ver f2 =? MESSAGE_VERSION) && Sym.fields_eqb f1 f2 && (signer =? author f2).
+
+Definition spec_obs (s : seq_spec) : obs :=
+  let '(_, _, f2, _) := s in (author f2, time f2, body f2).
+
+Definition obs_eqb (a b : obs) : bool :=
+  let '(p, t, x) := a in let '(p', t', x') := b in (p =? p') && (t =? t') && (x =? x').
+
+Fixpoint check_step (specs : list seq_spec) (ys : list (list obs)) : bool :=
+  match specs, ys with
+  | [], [] => true
+  | (signer, f1, f2, sigmut) :: specs', g :: ys' =>
+      match g with
+      | [] => true
+      | [o] => check_forge signer f1 f2 sigmut (Some o)
+      | _ => false
+      end && check_step specs' ys'
+  | _, _ => false
+  end.
+
+Fixpoint subseq_obs (auth ys : list obs) {struct auth} : bool :=
+  match ys with
+  | [] => true
+  | y :: ys' =>
+      match auth with
+      | [] => false
+      | a :: auth' => if obs_eqb y a then subseq_obs auth' ys' else subseq_obs auth' ys
+      end
+  end.
+
+Definition check_bulk (specs : list seq_spec) (ys : list obs) : bool :=
+  subseq_obs (map spec_obs (filter spec_authentic specs)) ys.
+
+Local Open Scope string_scope.
+
+Definition show_msg (m : wrapped N Sym.sigT) : string :=
+  "Y" ++ show_N (author (wf m)) ++ ":" ++ show_N (time (wf m)) ++ ":" ++ show_N (body (wf m)).
+
+Definition show_group (l : list (wrapped N Sym.sigT)) : string :=
+  match l with [] => "-" | _ => join "," (map show_msg l) end.
+
+(** [step]: the subscription is drained after every message: one group per message. *)
+Definition model_line_seq (step : bool) (specs : list seq_spec) : string :=
+  if step then join " " (map (fun s => show_group (Sym.sub_run [spec_incoming s])) specs)
+  else show_group (Sym.sub_run (map spec_incoming specs)).
+
+(** [rseq]: a really published message O and its remixed copy R (as [remix]) on one
+    subscription; [place] 0 = O R, 1 = O O R, 2 = R O, 3 = O R O R ([true] = O). *)
+Definition rseq_order (place : N) : list bool :=
+  match place with
+  | 0%N => [true; false]
+  | 1%N => [true; true; false]
+  | 2%N => [false; true]
+  | _ => [true; false; true; false]
+  end.
+
+Definition model_line_rseq (pk t0 now b field place : N) : string :=
+  match Sym.pub_run pk (hnow t0) [(now, b)] with
+  | ([w], _) =>
+      let r := {| wf := remix_fields field (wf w); wsig := wsig w |} in
+      show_group (Sym.sub_run (map (fun o : bool => Decoded (if o then w else r)) (rseq_order place)))
+  | _ => "PANIC"
+  end.
+
+(** Everything yielded is the published content, and no more often than it was delivered
+    (the copy counts only when nothing was changed). *)
+Definition check_rseq (pk t0 now b field place : N) (ys : list obs) : bool :=
+  match Sym.pub_run pk (hnow t0) [(now, b)] with
+  | ([w], _) =>
+      let o := (author (wf w), time (wf w), body (wf w)) in
+      let nmax := List.length (filter (fun x : bool => x || (field =? 0)%N) (rseq_order place)) in
+      forallb (fun y => obs_eqb y o) ys && Nat.leb (List.length ys) nmax
+  | _ => false
+  end.
